@@ -834,7 +834,9 @@ func (r *Reconciler) reconcileApply(ctx context.Context, proposal *configapi.Pro
 			return controller.Result{}, err
 		}
 		return controller.Result{}, nil
-	case configapi.ProposalApplyPhase_APPLIED:
+	case configapi.ProposalApplyPhase_APPLIED, configapi.ProposalApplyPhase_FAILED:
+		// The applied index has moved past this proposal, whether the target accepted it or refused it:
+		// the next proposal may be waiting for that.
 		if proposal.Status.NextIndex != 0 {
 			return controller.Result{
 				Requeue: controller.NewID(proposalstore.NewID(proposal.TargetID, proposal.Status.NextIndex)),
